@@ -113,14 +113,30 @@ func modelLine(c *Case) string {
 		if c.ArgSrc != "" {
 			return "" // arguments from a nested call: the outer arms, not modelled per argument
 		}
+		if c.Rebind && classOf(c) == "" {
+			return "C07 hostrecv" // the receiver a method value of a host value is called with
+		}
 		if viaCall(c) {
 			// the callee is a variable (or a parameter of the wrapper function W) of a script-written function type holding a
-			// host function: `call`, function-value branch — only the packing is modelled on that path
+			// host function: `call`, function-value branch — packing and the preparation of the arguments that need one
 			nf := len(c.Sig.In)
 			if c.Sig.Variadic {
 				nf--
 			}
-			return fmt.Sprintf("C07 pack fv %s %s %s %d %d", b01(c.Sig.Variadic), b01(c.Spread), b01(c.Ctx == "defer"), nf, len(c.Args))
+			kinds := []string{"kinds"}
+			for k, a := range c.Args {
+				kd := "other"
+				switch {
+				case c.Forms[k] == "decl":
+					kd = "decl"
+				case a.T.Kind == KFunc && a.Fn != nil:
+					kd = "closure"
+				case a.T.isHostIface() && a.Dyn != nil && a.Dyn.T.Decl == "script" && c.Forms[k] == "lit":
+					kd = "scriptdyn"
+				}
+				kinds = append(kinds, kd)
+			}
+			return fmt.Sprintf("C07 fvcall %s %s %s %d %s", b01(c.Sig.Variadic), b01(c.Spread), b01(c.Ctx == "defer"), nf, common.L(kinds...))
 		}
 		hasRecv, isIface, inSig := false, false, false
 		if c.Dir == "meth" {
